@@ -2,7 +2,10 @@
    cv <fmt> <min> <max> <step> <reading> <str>   -> ok int Z | ok dec s:c:e | err format | crash | fuel
    op <name> <prec> <mode> <a> [<b>]             -> dec s:c:e | none | cmp lt/eq/gt | int Z
    decimals travel as  s:coef:exp  (s = 0/1, coef and exp decimal strings), "-" = None
-   reading: F:s:coef:exp | N (non-finite) | R (rejected); str: code points a,b,c or "-" *)
+   reading: F:s:coef:exp | N (non-finite) | R (rejected); str: code points a,b,c or "-"
+   hist <aid> <n> <char>*n <op>*   one answer word per Prepare (or "none")
+     char  k;iid;fmt;min;max;step      op  D;k;fmt;min;max;step | R;k;reading | P[;k=reading=str]*
+     answer word  ok[|aid/iid/int/Z | |aid/iid/dec/s:c:e]* | err | crash | fuel *)
 open Drv
 let dec_of_tok t = match Stdlib.String.split_on_char ':' t with
   | [s; c; e] -> { Convert.dneg = (s = "1"); dcoef = n_of_dec c; dexp = z_of_dec e }
@@ -24,7 +27,32 @@ let res_str = function
   | Res.Ok (Convert.VDec d) -> "ok dec " ^ tok_of_dec d
   | Res.Err Convert.FormatError -> "err format"
   | Res.Crash -> "crash" | Res.OutOfFuel -> "fuel"
+let semi t = Stdlib.String.split_on_char ';' t
+let attrs_of f mn mx st = { ConvertHist.a_fmt = fmt_of f; a_min = opt_dec mn; a_max = opt_dec mx; a_step = opt_dec st }
+let char_of t = match semi t with
+  | [k; iid; f; mn; mx; st] ->
+      (n_of_dec k, { ConvertHist.c_iid = n_of_dec iid; c_attrs = attrs_of f mn mx st; c_reported = None })
+  | _ -> failwith "char"
+let entry_of t = match Stdlib.String.split_on_char '=' t with
+  | [k; r; s] -> (n_of_dec k, (str_of s, reading_of r))
+  | _ -> failwith "entry"
+let op_of t = match semi t with
+  | ["D"; k; f; mn; mx; st] -> ConvertHist.Declare (n_of_dec k, attrs_of f mn mx st)
+  | ["R"; k; r] -> ConvertHist.Report (n_of_dec k, reading_of r)
+  | "P" :: es -> ConvertHist.Prepare (Stdlib.List.map entry_of es)
+  | _ -> failwith "op"
+let out_str = function
+  | Res.Ok l -> Stdlib.String.concat "|" ("ok" :: Stdlib.List.map (fun ((a, i), v) ->
+      dec_of_n a ^ "/" ^ dec_of_n i ^ "/" ^ (match v with Convert.VInt z -> "int/" ^ dec_of_z z
+                                                        | Convert.VDec d -> "dec/" ^ tok_of_dec d)) l)
+  | Res.Err Convert.FormatError -> "err"
+  | Res.Crash -> "crash" | Res.OutOfFuel -> "fuel"
+let rec take n l = if n = 0 then ([], l) else match l with [] -> failwith "take" | x :: r -> let (a, b) = take (n - 1) r in (x :: a, b)
 let handle = function
+  | "hist" :: aid :: n :: rest ->
+      let (cs, ops) = take (int_of_string n) rest in
+      let outs = ConvertHist.run (n_of_dec aid) (Stdlib.List.map char_of cs) (Stdlib.List.map op_of ops) in
+      if outs = [] then "none" else Stdlib.String.concat " " (Stdlib.List.map out_str outs)
   | ["cv"; f; mn; mx; st; r; s] ->
       res_str (Convert.check_convert (fmt_of f) (opt_dec mn) (opt_dec mx) (opt_dec st) (str_of s) (reading_of r))
   | "op" :: name :: prec :: mode :: args ->
